@@ -17,9 +17,12 @@
    Len() = 0 and sliceList.size() = 1, the two conditions of ReleaseReadAndReuse); writes are assumed
    to fit the current slice (slice-level behaviour is C06's subject, slot accounting is C09's).
 
-   [fx] is the one switch of the model: fx = false is the code as it is today (getOrOpenStream drops a
-   popped stream that is not open / whose session is closed WITHOUT closing it); fx = true is the
-   candidate repair "close what is discarded". *)
+   The model has two switches, both translated from the Go source on every run (Gen/SwitchC15.v):
+   [fx] = true : getOrOpenStream closes a popped stream it does not hand out (not open / session closed);
+   [fx] = false: it drops it without Close (the code before the repair; kept for the regression);
+   [fy] = true : Stream.reset() fails when the send buffer still holds written, unflushed bytes (so that
+                 putOrCloseStream closes the stream instead of pooling it);
+   [fy] = false: reset() does not look at the send buffer (the code before the repair). *)
 From Coq Require Import List ZArith Bool Arith.
 From Shm Require Import Gen.Consts.
 Import ListNotations.
@@ -43,7 +46,7 @@ Record stream := {
 Record session := { shut : bool; cleaned : bool; unhealthy : bool; table : list nat }.
 
 Record st := {
-  fx : bool; cap : Z;
+  fx : bool; fy : bool; cap : Z;
   slots : Z -> nat; head : Z; tail : Z;                  (* the ring *)
   streams : nat -> stream; nstreams : nat;
   sessions : nat -> session; cur : nat; nsess : nat;     (* cur = pool.session *)
@@ -63,8 +66,8 @@ Definition new_stream (k : nat) : stream :=
   {| sst := Opened; ssess := k; rbuf := []; sbuf := []; sheap := false; pend := []; infb := false |}.
 Definition new_session : session := {| shut := false; cleaned := false; unhealthy := false; table := [] |}.
 
-Definition init (f : bool) (c : Z) : st :=
-  {| fx := f; cap := c; slots := fun _ => O; head := 0; tail := 0;
+Definition init (f g : bool) (c : Z) : st :=
+  {| fx := f; fy := g; cap := c; slots := fun _ => O; head := 0; tail := 0;
      streams := fun _ => new_stream O; nstreams := O;
      sessions := fun _ => new_session; cur := O; nsess := 1%nat; held := [] |}.
 
@@ -73,19 +76,19 @@ Definition updn {A} (f : nat -> A) (k : nat) (v : A) : nat -> A := fun i => if N
 Definition updz {A} (f : Z -> A) (k : Z) (v : A) : Z -> A := fun i => if i =? k then v else f i.
 
 Definition set_stream (x : nat) (v : stream) (s : st) : st :=
-  {| fx := fx s; cap := cap s; slots := slots s; head := head s; tail := tail s;
+  {| fx := fx s; fy := fy s; cap := cap s; slots := slots s; head := head s; tail := tail s;
      streams := updn (streams s) x v; nstreams := nstreams s;
      sessions := sessions s; cur := cur s; nsess := nsess s; held := held s |}.
 Definition set_session (k : nat) (v : session) (s : st) : st :=
-  {| fx := fx s; cap := cap s; slots := slots s; head := head s; tail := tail s;
+  {| fx := fx s; fy := fy s; cap := cap s; slots := slots s; head := head s; tail := tail s;
      streams := streams s; nstreams := nstreams s;
      sessions := updn (sessions s) k v; cur := cur s; nsess := nsess s; held := held s |}.
 Definition set_held (h : list (nat * nat)) (s : st) : st :=
-  {| fx := fx s; cap := cap s; slots := slots s; head := head s; tail := tail s;
+  {| fx := fx s; fy := fy s; cap := cap s; slots := slots s; head := head s; tail := tail s;
      streams := streams s; nstreams := nstreams s;
      sessions := sessions s; cur := cur s; nsess := nsess s; held := h |}.
 Definition set_head (h : Z) (s : st) : st :=
-  {| fx := fx s; cap := cap s; slots := slots s; head := h; tail := tail s;
+  {| fx := fx s; fy := fy s; cap := cap s; slots := slots s; head := h; tail := tail s;
      streams := streams s; nstreams := nstreams s;
      sessions := sessions s; cur := cur s; nsess := nsess s; held := held s |}.
 
@@ -113,7 +116,7 @@ Definition close_stream (x : nat) (s : st) : st :=
 (* ---- the ring (session_manager.go pop / push, under p.Lock) ---- *)
 Definition ring_push (x : nat) (s : st) : option st :=
   if tail s - head s <? cap s then
-    Some {| fx := fx s; cap := cap s; slots := updz (slots s) (tail s mod cap s) x; head := head s; tail := tail s + 1;
+    Some {| fx := fx s; fy := fy s; cap := cap s; slots := updz (slots s) (tail s mod cap s) x; head := head s; tail := tail s + 1;
             streams := streams s; nstreams := nstreams s;
             sessions := sessions s; cur := cur s; nsess := nsess s; held := held s |}
   else None.
@@ -148,7 +151,7 @@ Definition open_stream (c : nat) (s : st) : st * result :=
   else if unhealthy k then (s, RUnhealthy)
   else
     let x := nstreams s in
-    let s1 := {| fx := fx s; cap := cap s; slots := slots s; head := head s; tail := tail s;
+    let s1 := {| fx := fx s; fy := fy s; cap := cap s; slots := slots s; head := head s; tail := tail s;
                  streams := updn (streams s) x (new_stream (cur s)); nstreams := S x;
                  sessions := updn (sessions s) (cur s) (with_table (table k ++ [x]) k);
                  cur := cur s; nsess := nsess s; held := held s |} in
@@ -161,9 +164,11 @@ Definition do_get (c : nat) (s : st) : st * result :=
        | (s1, None) => open_stream c s1
        end.
 
-(* Stream.reset succeeds *)
-Definition resettable (v : stream) : bool :=
-  is_open v && (sumz (rbuf v) =? 0) && match pend v with [] => true | _ => false end.
+(* Stream.reset succeeds: open, nothing unread, nothing pending and - in the variant g = true - nothing
+   written but unflushed in the send buffer *)
+Definition resettable (g : bool) (v : stream) : bool :=
+  is_open v && (sumz (rbuf v) =? 0) && match pend v with [] => true | _ => false end
+  && (negb g || (sumz (sbuf v) =? 0)).
 
 (* reset + ReleaseReadAndReuse: a fully read single receive slice is kept and becomes the next send
    buffer; the old send buffer - whatever it contains - becomes the receive buffer *)
@@ -181,7 +186,7 @@ Definition do_put (c x : nat) (s : st) : st * result :=
     let s0 := rem_held c x s in
     let v := streams s0 x in
     if infb v then (close_stream x s0, RNone)
-    else if negb (resettable v) then (close_stream x s0, RNone)
+    else if negb (resettable (fy s0) v) then (close_stream x s0, RNone)
     else
       let s1 := set_stream x (recycled_for_reuse v) s0 in
       match ring_push x s1 with
@@ -253,7 +258,7 @@ Definition do_peer_close (x : nat) (s : st) : st :=
 Definition do_cleanup (k : nat) (s : st) : st :=
   let ks := sessions s k in
   if shut ks && negb (cleaned ks) then
-    {| fx := fx s; cap := cap s; slots := slots s; head := head s; tail := tail s;
+    {| fx := fx s; fy := fy s; cap := cap s; slots := slots s; head := head s; tail := tail s;
        streams := fun x => if existsb (Nat.eqb x) (table ks) then closed_of (streams s x) else streams s x;
        nstreams := nstreams s;
        sessions := updn (sessions s) k {| shut := true; cleaned := true; unhealthy := unhealthy ks; table := [] |};
@@ -272,7 +277,7 @@ Definition do_bg_pop (s : st) : st :=
 
 Definition do_rebuild (s : st) : st :=
   if shut (sessions s (cur s)) then
-    {| fx := fx s; cap := cap s; slots := slots s; head := head s; tail := tail s;
+    {| fx := fx s; fy := fy s; cap := cap s; slots := slots s; head := head s; tail := tail s;
        streams := streams s; nstreams := nstreams s;
        sessions := updn (sessions s) (nsess s) new_session; cur := nsess s; nsess := S (nsess s); held := held s |}
   else s.
